@@ -126,6 +126,8 @@ struct BlockCtx {
     served: bool,
     len: u32,
     failures: Vec<String>,
+    /// the device reports this (earlier) chain instead of the one the blocking call submitted
+    foreign: Option<u16>,
 }
 
 thread_local! {
@@ -133,6 +135,22 @@ thread_local! {
 }
 
 fn serve(b: &mut BlockCtx) {
+    if let Some(f) = b.foreign {
+        if let Err(e) = b.dev.fetch_all() {
+            b.failures.push(format!("[C01] device fetch failed: {}", e));
+        }
+        if let Some(ch) = b.dev.inflight.iter().find(|c| c.head == f).cloned() {
+            let wl = b.dev.writable_len(&ch);
+            let len = if wl == 0 { 0 } else { b.len % (wl as u32 + 1) };
+            b.len = len;
+            let _ = b.dev.write_out(&ch, &vec![0x5A; len as usize]);
+            if let Err(e) = b.dev.complete(ch.head, len) {
+                b.failures.push(e);
+            }
+        }
+        b.served = true;
+        return;
+    }
     match b.dev.fetch_all() {
         Ok(chs) => {
             for ch in chs {
@@ -254,7 +272,7 @@ fn blocking_case<const N: usize>(id: String, mut rng: Rng, event_idx: bool, indi
         let lens = |v: &Vec<Vec<u8>>, off: usize| if v.is_empty() { "-".to_string() } else { v.iter().enumerate().map(|(i, b)| format!("{}:{}", base + off + i, b.len())).collect::<Vec<_>>().join(",") };
         let want_len = rng.next() as u32;
         BLOCK.with(|b| {
-            *b.borrow_mut() = Some(BlockCtx { dev: l.dev.clone(), policy, notified: false, spins: 0, served: false, len: want_len, failures: vec![] })
+            *b.borrow_mut() = Some(BlockCtx { dev: l.dev.clone(), policy, notified: false, spins: 0, served: false, len: want_len, failures: vec![], foreign: None })
         });
         let log0 = st.borrow().log.len();
         let r = {
@@ -323,6 +341,173 @@ fn blocking_case<const N: usize>(id: String, mut rng: Rng, event_idx: bool, indi
     c
 }
 
+/// A blocking request on a queue that still has an earlier non-blocking chain outstanding, whose
+/// completion the device reports first (during the wait, or before the call).  The request must fail
+/// with `WrongToken` and leave its own chain with the device — descriptors allocated, buffers shared —
+/// until the device returns it; the history then goes on (pop the earlier chain, submit again, let the
+/// device fetch, complete and return everything).
+pub fn foreign_first_case<const N: usize>(id: String, mut rng: Rng, event_idx: bool, indirect: bool) -> Case {
+    let mut c = Case::new(id);
+    let mut l = match Live::<N>::new(indirect, event_idx, false) {
+        Ok(l) => l,
+        Err(e) => {
+            c.fail(format!("cannot create queue: {}", e));
+            return c;
+        }
+    };
+    c.step(format!("queue new n={} ind={} ev={} ap=0", N, indirect as u8, event_idx as u8), format!("ok | - | {}", l.priv_str()));
+    let st = l.t.st.clone();
+    st.borrow_mut().on_notify = Some(Box::new(|_q| {
+        BLOCK.with(|b| {
+            if let Some(b) = b.borrow_mut().as_mut() {
+                b.notified = true;
+            }
+        });
+    }));
+    for _round in 0..(1 + rng.below(4)) {
+        // earlier chain B, non-blocking
+        let b_out = 1 + rng.below(2) as usize;
+        let lens_b: Vec<usize> = (0..b_out).map(|_| rng.range(1, 40) as usize).collect();
+        let Some(tok_b) = l.add(&mut c, &[], &lens_b, &mut rng) else { break };
+        let pre = rng.chance(1, 2);
+        if pre {
+            // the device has already reported B when the blocking call is made
+            l.dev_fetch(&mut c);
+            let pos = l.dev.inflight.iter().position(|x| x.head == tok_b).unwrap_or(0);
+            l.dev_complete(&mut c, pos, rng.next() as u32, &mut rng);
+        } else if rng.chance(1, 2) {
+            l.dev_fetch(&mut c);
+        }
+        // blocking request A
+        let nin = 1 + rng.below(2) as usize;
+        let nout = rng.below(2) as usize;
+        if !indirect && l.q.available_desc() < nin + nout {
+            break;
+        }
+        let ins: Vec<usize> = (0..nin).map(|_| { let n = rng.range(1, 40) as usize; l.new_buf(n, 0x11) }).collect();
+        let outs: Vec<usize> = (0..nout).map(|_| { let n = rng.range(1, 40) as usize; l.new_buf(n, 0xEE) }).collect();
+        let fmt = |v: &Vec<usize>, b: &Vec<Vec<u8>>| if v.is_empty() { "-".to_string() } else { v.iter().map(|i| format!("{}:{}", i, b[*i].len())).collect::<Vec<_>>().join(",") };
+        let want_len = rng.next() as u32;
+        BLOCK.with(|b| {
+            *b.borrow_mut() = Some(BlockCtx { dev: l.dev.clone(), policy: Policy::Poll, notified: false, spins: 0, served: false, len: want_len, failures: vec![], foreign: Some(tok_b) })
+        });
+        let (_, _, avail_before, _) = l.q.verif_state();
+        let num_used_before = l.q.verif_state().0;
+        let r = {
+            let bufs_ptr: *mut Vec<Vec<u8>> = &mut l.bufs;
+            let q = &mut l.q;
+            let t = &mut l.t;
+            let (ins2, outs2) = (ins.clone(), outs.clone());
+            guarded(move || {
+                // SAFETY: distinct indices; the vectors stay in `l.bufs`, unmoved, until the case ends.
+                let b = unsafe { &mut *bufs_ptr };
+                let in_refs: Vec<&[u8]> = ins2.iter().map(|i| unsafe { &*(b[*i].as_slice() as *const [u8]) }).collect();
+                let mut out_refs: Vec<&mut [u8]> = outs2.iter().map(|i| unsafe { &mut *(b[*i].as_mut_slice() as *mut [u8]) }).collect();
+                q.add_notify_wait_pop(&in_refs, &mut out_refs, t)
+            })
+        };
+        let ctx = BLOCK.with(|b| b.borrow_mut().take()).unwrap();
+        l.dev = ctx.dev.clone();
+        for f in ctx.failures {
+            c.fail(f);
+        }
+        let h = hal::take_events();
+        let mut all: Vec<String> = h.iter().map(|(_, e)| e.canon()).collect();
+        STORE.with(|s| {
+            if let Some(x) = s.borrow_mut().as_mut() {
+                let _ = std::mem::take(&mut x.events);
+                for o in x.oracle.drain(..) {
+                    c.fail(o);
+                }
+                all.extend(x.net_effect());
+            }
+        });
+        l.sync_dev_to_store();
+        let evs = if all.is_empty() { "-".to_string() } else { all.join(" ") };
+        let op = if pre {
+            format!("queue anwpf in={} out={}", fmt(&ins, &l.bufs), fmt(&outs, &l.bufs))
+        } else {
+            format!("queue anwpf in={} out={} fid={} flen={}", fmt(&ins, &l.bufs), fmt(&outs, &l.bufs), tok_b, ctx.len)
+        };
+        let res = match &r {
+            Err(_) => "panic".to_string(),
+            Ok(Err(e)) => format!("err {:?}", e),
+            Ok(Ok(len)) => format!("ok len={}", len),
+        };
+        c.tag(if pre { "foreign-pending-before" } else { "foreign-during-wait" });
+        c.step(op, format!("{} | {} | {} notify={}", res, evs, l.priv_str(), ctx.notified as u8));
+        if !matches!(r, Ok(Err(virtio_drivers::Error::WrongToken))) {
+            c.fail(format!("[C03] add_notify_wait_pop = {} although the completion at the head of the used ring belongs to chain {}", res, tok_b));
+            break;
+        }
+        // [C01] the chain the call published is still the device's: entry `avail_before` of the ring
+        let k = nin + nout;
+        let head = l.dev.avail_ring(avail_before % N as u16).unwrap_or(u16::MAX);
+        match l.dev.parse_chain(head) {
+            Err(e) => c.fail(format!("[C01] add_notify_wait_pop returned WrongToken (another chain completed first) and left its own published chain {} malformed although the device has not used it: {}", head, e)),
+            Ok(ch) => {
+                let want: Vec<usize> = ins.iter().chain(outs.iter()).map(|i| l.bufs[*i].len()).collect();
+                let got: Vec<usize> = ch.segs.iter().map(|s| s.len as usize).collect();
+                if got != want {
+                    c.fail(format!("[C01] after WrongToken the published chain {} no longer describes the caller's buffers: {:?} vs {:?}", head, got, want));
+                }
+                for s in &ch.segs {
+                    if let Err(e) = hal::translate(s.addr, s.len as usize) {
+                        c.fail(format!("[C01] after WrongToken a buffer of the still-available chain {} is no longer shared with the device: {}", head, e));
+                    }
+                }
+            }
+        }
+        let want_used = num_used_before as usize + if indirect && k > 1 { 1 } else { k };
+        if l.q.verif_state().0 as usize != want_used {
+            c.fail(format!("[C01] after WrongToken the driver counts {} descriptors in use; the earlier chains and the still-available chain {} hold {}", l.q.verif_state().0, head, want_used));
+        }
+        l.added += 1;
+        l.held.insert(head, crate::cq_queue::Held { ins: ins.clone(), outs: outs.clone(), entry: avail_before });
+        // the history goes on: the device picks the chain up (if it had not yet), B is consumed, a new
+        // submission is made, everything is returned in some order
+        l.dev_fetch(&mut c);
+        if !pre {
+            l.dev_written.insert(tok_b, vec![0x5A; ctx.len as usize]);
+        }
+        l.pop(&mut c, tok_b);
+        let n3 = 1 + rng.below(3) as usize;
+        if indirect || l.q.available_desc() >= n3 {
+            let lens3: Vec<usize> = (0..n3).map(|_| rng.range(1, 40) as usize).collect();
+            l.add(&mut c, &lens3, &[], &mut rng);
+            l.dev_fetch(&mut c);
+        }
+        while !l.dev.inflight.is_empty() {
+            let pick = rng.below(4) as usize;
+            if let Some(t) = l.dev_complete(&mut c, pick, rng.next() as u32, &mut rng) {
+                l.pop(&mut c, t);
+            } else {
+                break;
+            }
+        }
+        l.check_counts(&mut c);
+        l.drain_store_oracle(&mut c);
+    }
+    c.nontrivial = true;
+    STORE.with(|s| *s.borrow_mut() = None);
+    c
+}
+
+pub fn foreign_first_cases(ctx: &Ctx, prop: &str) -> Vec<Case> {
+    cq_queue::install_hooks();
+    virtio_drivers::verif_hooks::set_spin_hook(Some(on_spin));
+    let n = ctx.tier.pick(200, 4000);
+    crate::runner::par_cases(ctx, prop, "foreign-first", n, |i, id| {
+        let rng = ctx.case_rng("foreign-first", i);
+        match i % 4 {
+            0 => foreign_first_case::<4>(id, rng, true, false),
+            1 => foreign_first_case::<8>(id, rng, false, false),
+            2 => foreign_first_case::<16>(id, rng, true, true),
+            _ => foreign_first_case::<4>(id, rng, false, true),
+        }
+    })
+}
+
 pub fn run(ctx: &Ctx) -> (Vec<Case>, String, bool, BTreeMap<String, String>) {
     cq_queue::install_hooks();
     virtio_drivers::verif_hooks::set_spin_hook(Some(on_spin));
@@ -359,6 +544,7 @@ pub fn run(ctx: &Ctx) -> (Vec<Case>, String, bool, BTreeMap<String, String>) {
             _ => blocking_case::<1>(id, rng, i % 8 == 3, false),
         }
     }));
+    all.extend(foreign_first_cases(ctx, "C05"));
     // (ii) structured histories with the need_event oracle
     all.extend(cq_queue::run_structured(ctx, "C05", 600, 12000));
     let mut all = cq_queue::filter_for("C05", all);
